@@ -60,6 +60,10 @@ EXTRA_DOCS = {
     "ints": "===N===\nK::1\nF::0\n===END===\n",
     "genw_instance": GENW_INSTANCE,
     "holo_routed": HOLO_ROUTED,
+    "zone_routed": '===I===\nMETA:\n  TYPE::X\n  VERSION::"1.0"\n---\nGENW:\n  NAME::\n```txt\nzone text\n```\n  STATUS::ACTIVE\n===END===\n',
+    "collide_schema": ('===COLLIDE===\nMETA:\n  TYPE::PROTOCOL_DEFINITION\n  VERSION::"1.0"\n---\nFIELDS:\n  Priority::["x"∧REQ]\n  PRIORITY::["y"∧OPT]\n'
+                       '  A-B::[1∧TYPE[NUMBER]]\n  A_B::[2∧TYPE[NUMBER]]\n===END===\n'),
+    "collide_schema2": ('===COLLIDE2===\nMETA:\n  TYPE::PROTOCOL_DEFINITION\n  VERSION::"1.0"\n---\nFIELDS:\n  Status::["x"∧REQ]\n  STATUS::["y"∧OPT]\n===END===\n'),
     "repairable": '===I===\nMETA:\n  TYPE::X\n  VERSION::"1.0"\n---\nGENW:\n  NAME::n\n  STATUS::active\n  COUNT::"5"\n===END===\n',
 }
 
@@ -69,10 +73,13 @@ def call_list():
     docs.update(EXTRA_DOCS)
     K = []
 
+    cur = {"doc": None}
+
     def add(kind, gen=False, **args):
-        K.append({"id": len(K), "kind": kind, "args": args, "gen": gen})
+        K.append({"id": len(K), "kind": kind, "args": args, "gen": gen, "doc": cur["doc"]})
 
     for name, text in docs.items():
+        cur["doc"] = name
         add("validate", content=text, schema="META")
         add("validate", content=text, schema="META", fix=True, profile="STRICT", debug_grammar=True)
         add("eject", content=text, schema="META", mode="canonical", format="json")
@@ -83,18 +90,21 @@ def call_list():
         add("write", content=text, lenient=True, corrections_only=True, schema="META")
         add("write", content=text, lenient=True, target_path="w.oct.md")
         add("api", content=text)
-    for name in ("genw_instance", "holo_routed", "repairable", "holo_instance", "rich"):
+    for name in ("genw_instance", "holo_routed", "zone_routed", "repairable", "holo_instance", "rich"):
         text = docs[name]
+        cur["doc"] = name
         add("validate", gen=True, content=text, schema="GENW")
         add("validate", gen=True, content=text, schema="GENW", fix=True, grammar_hint=True)
         add("validate", gen=True, content=text, schema="GENW", profile="LENIENT", compact=True)
         add("write", gen=True, content=text, lenient=True, schema="GENW", target_path="g.oct.md")
         add("api_validate", gen=True, content=text, schema="GENW")
         add("api_validate", gen=True, content=text, schema="GENW", strict=True)
-    for name in ("holo_schema", "contract"):
+    for name in ("holo_schema", "contract", "collide_schema", "collide_schema2"):
+        cur["doc"] = name
         add("api_gbnf", content=docs[name])
         add("compile", content=docs[name], format="json_schema")
         add("eject", content=docs[name], schema="META", format="gbnf")
+    cur["doc"] = None
     add("compile", schema="DEBATE_TRANSCRIPT", format="gbnf")
     add("compile", gen=True, schema="GENW", format="gbnf")
     add("write", _existing=docs["flat"], changes={"A": [1, 2, 3], "NEW": {"k": "v"}}, target_path="c.oct.md")
@@ -154,7 +164,7 @@ def run(ctx):
 def _run(ctx, root):
     dirs = setup_dirs(root)
     K = call_list()
-    specs = [{k: v for k, v in s.items() if k != "gen"} for s in K]
+    specs = [{k: v for k, v in s.items() if k not in ("gen", "doc")} for s in K]
     viol = {}
     states = transitions = traces = 0
     samples = []
@@ -204,8 +214,11 @@ def _run(ctx, root):
                     record(f"config:{s['kind']}:differs-in:{'+'.join(diff_keys(ref[i], out[i]))}", dict(call=specs[i], config=list(cfg), suspects=dims),
                            out[i][:500], ref[i][:300])
     # ---- (b) histories: every ordered pair over K'
-    kprime = [s for s in specs if s["id"] % 5 in (0, 2) or K[s["id"]]["gen"]][: (40 if ctx.quick else 80)]
-    ids = [s["id"] for s in kprime]
+    # K' = every kind of call on a set of documents chosen so that each pair of value kinds / schema features can collide
+    kp_docs = ["rich", "lenient", "bools", "floats", "genw_instance", "zone_routed", "holo_routed", "collide_schema"]
+    if not ctx.quick:
+        kp_docs += ["ints", "repairable", "collide_schema2", "zones", "holo_schema", "contract", "flat", "skill"]
+    ids = [s["id"] for s in K if s["doc"] in kp_docs and not (ctx.quick and s["kind"] == "eject" and s["args"].get("format") in ("yaml", "octave"))]
     chunks = [ids[i::16] for i in range(16)]
 
     def pairs_worker(a_ids):
@@ -231,6 +244,12 @@ def _run(ctx, root):
                 if json.dumps(got, sort_keys=True) != json.dumps(want, sort_keys=True):
                     record(f"history:{specs[i]['kind']}:differs-in:{'+'.join(diff_keys(ref[i], json.dumps(got)))}",
                            dict(call=specs[i], after_call=specs[a] if which == "b" else None, pair=[a, b]), line[:500], ref[i][:300])
+    # ---- (b2) histories in which the named schema's TEXT changes between calls (results are a function of the arguments and
+    #      the schema's text: a long-lived process must answer like a fresh one that sees the new text)
+    n_states, n_trans = schema_edits(ctx, root, K, specs, record)
+    states += n_states
+    transitions += n_trans
+    traces += n_trans
     # ---- (c) schedules on the virtual loop (in this process)
     sched_states, sched_trans = schedules(ctx, specs, K, dirs, record)
     states += sched_states
@@ -252,6 +271,70 @@ def _run(ctx, root):
     ctx.coverage["traces_validated_against_impl"] += tst.evaluations
     states, transitions = ctx.coverage["states"], ctx.coverage["transitions"]
     print(f"[C06] calls={len(specs)} configs={len(configs)} pair_alphabet={len(ids)} states={states} transitions={transitions} violations={len(viol)}", flush=True)
+
+
+GENW2 = GENW.replace('STATUS::["ACTIVE"∧REQ∧ENUM[ACTIVE,DONE]→§INDEXER]', 'STATUS::["DONE"∧REQ∧ENUM[DONE,OPEN]→§SELF]').replace(
+    "UNKNOWN_FIELDS::WARN", "UNKNOWN_FIELDS::REJECT")
+
+
+def schema_edits(ctx, root, K, specs, record):
+    """for every call c that names the generated schema: one long-lived worker serves  c | edit S1->S2 | c | edit S2->S1 | c ;
+    the three answers must equal those of fresh processes that only ever saw S1 / S2 / S1."""
+    assert GENW2 != GENW
+    gen = [s for s in K if s["gen"]]
+    texts = {"S1": GENW, "S2": GENW2}
+
+    def mk(name):
+        d = os.path.join(root, name)
+        os.makedirs(d, exist_ok=True)
+        return d
+
+    def setspec(which):
+        return {"id": f"set-{which}", "kind": "set_schema", "args": {"name": "GENW", "text": texts[which]}}
+
+    def fresh(which):
+        seq = [setspec(which)] + [dict(specs[s["id"]], id=f"{s['id']}") for s in gen]
+        out, err = pm.run_worker(seq, "0", mk(f"fresh-{which}"), "C.UTF-8")
+        return {int(k): v for k, v in out.items() if str(k).isdigit()}
+
+    def fresh_single(which, s):
+        out, err = pm.run_worker([setspec(which), dict(specs[s["id"]], id="x")], "0", mk(f"fs-{which}-{s['id']}"), "C.UTF-8")
+        return out.get("x")
+
+    def long_lived(s):
+        c = specs[s["id"]]
+        seq = [setspec("S1"), dict(c, id="c1"), setspec("S2"), dict(c, id="c2"), setspec("S1"), dict(c, id="c3")]
+        out, err = pm.run_worker(seq, "0", mk(f"ll-{s['id']}"), "C.UTF-8")
+        return s, out
+
+    trans = 0
+    with cf.ThreadPoolExecutor(max_workers=16) as ex:
+        ref = {}
+        futs = {(w, s["id"]): ex.submit(fresh_single, w, s) for w in ("S1", "S2") for s in gen}
+        for k, f in futs.items():
+            ref[k] = f.result()
+        differ = sum(1 for s in gen if _strip_id(ref[("S1", s["id"])]) != _strip_id(ref[("S2", s["id"])]))
+        for s, out in ex.map(long_lived, gen):
+            for key, which in (("c1", "S1"), ("c2", "S2"), ("c3", "S1")):
+                trans += 1
+                want, got = ref[(which, s["id"])], out.get(key)
+                if want is None or got is None:
+                    record(f"schema-edit:no-result:{s['kind']}", dict(call=specs[s["id"]], step=key), str(got)[:200], "a result")
+                elif _strip_id(got) != _strip_id(want):
+                    record(f"schema-edit:{s['kind']}:{key}-answers-with-stale-schema-text:differs-in:{'+'.join(diff_keys(want, got))}",
+                           dict(call=specs[s["id"]], step=key, schema_text_now=which), got[:500], want[:300])
+    ctx.coverage.setdefault("notes_schema_edit", f"{len(gen)} calls naming the generated schema; {differ} of them answer differently under the two schema texts")
+    if differ == 0:
+        raise RuntimeError("schema-edit sub-check is vacuous: no call distinguishes the two schema texts")
+    return len(gen), trans
+
+
+def _strip_id(line):
+    if line is None:
+        return None
+    d = json.loads(line)
+    d.pop("id", None)
+    return json.dumps(d, sort_keys=True)
 
 
 def schedules(ctx, specs, K, dirs, record):
